@@ -65,6 +65,9 @@ func (r *Result) add(o Obl) {
 	sort.Strings(o.Found)
 	sort.Strings(o.Missing)
 	r.Obls = append(r.Obls, o)
+	if f := os.Getenv("FDOCHECK_DEBUG_OBL"); f != "" && strings.Contains(o.Construct, f) {
+		fmt.Printf("OBL ok=%v %s @ %s :: %s\n", o.OK, o.Construct, o.Pos, o.Detail)
+	}
 }
 
 func (r *Result) checkFloors() {
